@@ -59,12 +59,16 @@ func opCfg(st *state, args []string) []string {
 			return []string{resErr(err)}
 		}
 	}
+	var pre []string
+	if pc != nil {
+		pre = []string{"twin " + twinOf(pc)}
+	}
 	c, err := pc.Compile()
 	if err != nil {
-		return []string{resErr(err)}
+		return append(pre, resErr(err))
 	}
 	cfgs[args[0]] = c
-	return []string{"res ok"}
+	return append(pre, "res ok")
 }
 
 // dumpMsg renders the canonical `msg` line: non-zero exported fields in struct order, then unk
@@ -115,6 +119,8 @@ type captureFormat struct {
 	// allocation measurement: only count the messages, allocate nothing
 	countOnly bool
 	count     int
+	// also record the four output forms of each message
+	full bool
 }
 
 func (c *captureFormat) Format(data interface{}) ([]byte, []byte, error) {
@@ -129,7 +135,17 @@ func (c *captureFormat) Format(data interface{}) ([]byte, []byte, error) {
 	} else {
 		line = dumpMsg(m)
 	}
+	var extra []string
+	if c.full && ok {
+		extra = fmtLines(m)
+	}
 	c.mu.Lock()
+	if extra != nil {
+		c.lines = append(c.lines, line)
+		c.lines = append(c.lines, extra...)
+		c.mu.Unlock()
+		return nil, nil, nil
+	}
 	if c.byGoid != nil {
 		g := goid()
 		c.byGoid[g] = append(c.byGoid[g], line)
@@ -138,6 +154,16 @@ func (c *captureFormat) Format(data interface{}) ([]byte, []byte, error) {
 	}
 	c.mu.Unlock()
 	return nil, nil, nil
+}
+
+func countMsgs(lines []string) int {
+	n := 0
+	for _, l := range lines {
+		if l == "msg" || strings.HasPrefix(l, "msg ") {
+			n++
+		}
+	}
+	return n
 }
 
 type pipeEntry struct {
@@ -268,11 +294,11 @@ func opPkt(st *state, args []string) []string {
 	func() {
 		defer func() {
 			if r := recover(); r != nil {
-				lines = append([]string{fmt.Sprintf("res panic n=%d # %v", len(pe.cap.lines), r)}, pe.cap.lines...)
+				lines = append([]string{fmt.Sprintf("res panic n=%d # %v", countMsgs(pe.cap.lines), r)}, pe.cap.lines...)
 			}
 		}()
 		err := pe.pipe.DecodeFlow(msg)
-		res := classify(err) + fmt.Sprintf(" n=%d", len(pe.cap.lines))
+		res := classify(err) + fmt.Sprintf(" n=%d", countMsgs(pe.cap.lines))
 		if err != nil {
 			res += " # " + strings.ReplaceAll(err.Error(), "\n", " | ")
 		}
